@@ -22,8 +22,37 @@ func init() {
 func TestMain(m *testing.M) { pbt.Main(m) }
 
 type strCase struct {
-	S    string
-	Kind string // "path" or "version"
+	S     string
+	Kind  string // "path" or "version"
+	First bool   `json:",omitempty"` // the opposite conversion is asked about the counterpart string first
+}
+
+// rawEscape and rawUnescape do the letter substitution only, without any validity rule: the counterpart of
+// a string on the other side of the conversion, whether or not either of them is valid.
+func rawEscape(s string) string {
+	var b strings.Builder
+	for i := 0; i < len(s); i++ {
+		if c := s[i]; 'A' <= c && c <= 'Z' {
+			b.WriteByte('!')
+			b.WriteByte(c + 'a' - 'A')
+		} else {
+			b.WriteByte(c)
+		}
+	}
+	return b.String()
+}
+
+func rawUnescape(s string) string {
+	var b strings.Builder
+	for i := 0; i < len(s); i++ {
+		if s[i] == '!' && i+1 < len(s) && 'a' <= s[i+1] && s[i+1] <= 'z' {
+			b.WriteByte(s[i+1] - 'a' + 'A')
+			i++
+		} else {
+			b.WriteByte(s[i])
+		}
+	}
+	return b.String()
 }
 
 func hasUpperOrBang(s string) bool {
@@ -61,9 +90,9 @@ func genStr(t *rapid.T) strCase {
 		default:
 			s = gen.MutateString(t, gen.ValidModulePath(t), 1, []string{"!", "A", "Z", "a", "é", "K", "/", "!a", "!!", "\xff", "+"})
 		}
-		return strCase{s, "path"}
+		return strCase{s, "path", gen.Chance(t, 30, "first")}
 	}
-	return strCase{genVersionish(t), "version"}
+	return strCase{genVersionish(t), "version", gen.Chance(t, 30, "first")}
 }
 
 func escapeFns(kind string) (esc, unesc func(string) (string, error), valid func(string) bool) {
@@ -88,9 +117,17 @@ func checkEscape(c strCase) pbt.Result {
 		r.Skip = true
 		return r
 	}
+	if c.First {
+		// nothing learnt while unescaping the counterpart (which fails whenever c.S is invalid) may show here
+		unesc(rawEscape(c.S))
+		unesc(c.S)
+	}
 	e, err := esc(c.S)
 	want := valid(c.S)
 	r.Classes = []string{fmt.Sprintf("%s valid=%v", c.Kind, want)}
+	if c.First {
+		r.Classes = append(r.Classes, "counterpart unescaped first")
+	}
 	if (err == nil) != want {
 		r.Fail = pbt.Failf("escape-iff-valid", "Escape%s(%q): err=%v, valid=%v", c.Kind, c.S, err, want)
 		return r
@@ -175,7 +212,7 @@ func checkPair(c pairCase) pbt.Result {
 		return r
 	}
 	for _, s := range []string{c.X, c.Y} {
-		if res := checkEscape(strCase{s, c.Kind}); res.Fail != nil {
+		if res := checkEscape(strCase{S: s, Kind: c.Kind}); res.Fail != nil {
 			return res
 		}
 	}
@@ -232,7 +269,7 @@ func genEscaped(t *rapid.T) strCase {
 			s += escAlphabet[rapid.IntRange(0, len(escAlphabet)-1).Draw(t, "c")]
 		}
 	}
-	return strCase{s, kind}
+	return strCase{s, kind, gen.Chance(t, 30, "first")}
 }
 
 // inverse is the documented inverse of the escaping, or false.
@@ -261,6 +298,10 @@ func inverse(e string) (string, bool) {
 func checkUnescape(c strCase) pbt.Result {
 	esc, unesc, valid := escapeFns(c.Kind)
 	r := pbt.Result{NonTrivial: hasUpperOrBang(c.S)}
+	if c.First {
+		esc(rawUnescape(c.S))
+		esc(c.S)
+	}
 	x, err := unesc(c.S)
 	wx, wok := inverse(c.S)
 	if wok && unspecified(c.Kind, wx) {
@@ -309,10 +350,10 @@ func FuzzUnescape(f *testing.F) {
 			sub string
 			fn  func(strCase) pbt.Result
 		}{{"unescape", checkUnescape}, {"escape", checkEscape}} {
-			res := chk.fn(strCase{s, kind})
-			pbt.Count("fuzz-"+chk.sub, strCase{s, kind}, res)
+			res := chk.fn(strCase{S: s, Kind: kind})
+			pbt.Count("fuzz-"+chk.sub, strCase{S: s, Kind: kind}, res)
 			if res.Fail != nil {
-				pbt.ReportFuzz(t, chk.sub, strCase{s, kind}, res.Fail)
+				pbt.ReportFuzz(t, chk.sub, strCase{S: s, Kind: kind}, res.Fail)
 			}
 		}
 	})
